@@ -27,7 +27,7 @@ META = dict(
          'that duplicates and stale messages never consume a retry, and that '
          'nothing is resubmitted after a final status.',
     note='N, M in {(2,1) from the fixture, (0,0), (1,0), (0,2)}; up to 8 '
-         '(thorough 11) life-cycle steps; resubmission of a waiting task '
+         '(thorough 9) life-cycle steps; resubmission of a waiting task '
          'with a retry lined up is played by the harness the way '
          'TaskJobManager.prep_submit_task_jobs does (status preparing, '
          'submit number + 1, _set_retry_timers); clock constant.',
@@ -37,7 +37,7 @@ META = dict(
                '_retry_task', 'TaskActionTimer.next / set_delays',
                'TaskJobManager._set_retry_timers', 'TaskState.reset'],
     bounds=['retry configurations (N, M): (2,1), (0,0), (1,0), (0,2)',
-            'life cycle steps: 8 quick / 11 thorough, 4 outcomes per step'],
+            'life cycle steps: 8 quick / 9 thorough, 4 outcomes per step'],
     stubs=['proc_pool, workflow_db_mgr, data_store_mgr, broadcast_mgr '
            '(recording stubs)', 'xtrigger manager (retry xtrigger creation '
            'recorded)', 'task_action_timer.time -> constant clock',
@@ -224,7 +224,7 @@ def OBLIGATIONS(tier):
                               'life', timeout=t,
                               twin=(c2 == 0 and c3 == 0),
                               slice={'cfg': cfg, 'c2': c2, 'c3': c3,
-                                     'n': 11 if big else 8}))
+                                     'n': 9 if big else 8}))
     return obs
 
 
